@@ -166,3 +166,29 @@ def layout_sites(f: Func, p1: str, p2: str):
                 if len(o1) == 1 and len(o2) == 1 and o1 != o2:
                     shapes.append((n, next(iter(o1)), next(iter(o2))))
     return fills, shapes
+
+
+def check_fill_vs_shape(ctx, rep, rule: str, qualnames):
+    """For each helper: the operand whose outcomes are the slow index of the filled list must be the one the
+    reported shape lists first.  Returns [(func, node, outer owner)]."""
+    orders = []
+    for q in qualnames:
+        h = ctx.ix.func(q)
+        a, b = h.params[0], h.params[1]
+        fills, shapes = layout_sites(h, a, b)
+        # a single loop over the ensemble's states that extends per-outcome lists is ensemble-major by construction
+        if h.name.endswith("_StateEnsemble") and h.name.startswith("_compose"):
+            loops = [n for n in own_nodes(h.node) if isinstance(n, ast.For) and ("%s.states" % b) in unparse(n.iter)]
+            if loops and not fills:
+                fills = [(loops[0], 2, 1)]
+        if not fills or not shapes:
+            rep.undecided(rule, h, "layout", "no fill/shape pair found")
+            continue
+        for node, o_outer, o_inner in fills:
+            orders.append((h, node, o_outer))
+            for snode, s1, s2 in shapes:
+                con = "%s: fill %s-major, shape %s first" % (h.name, "elem%d" % o_outer, "elem%d" % s1)
+                rep.check(s1 == o_outer, rule, h, con, "list order and shape agree",
+                          "the list is filled with operand %d's outcomes as the slow index, but the shape lists operand %d first: for different "
+                          "outcome counts the multi-index labels the wrong elements" % (o_outer, s1), node=snode)
+    return orders
